@@ -49,11 +49,22 @@ def rule_pure(filter_names=None):
             pretty = prog.pretty[p]
             for ev in an.events:
                 if ev["k"] == "store":
-                    ri = an.region_info.get(ev["region"])
-                    bad = ri is not None and ri["imm"]
-                    if bad or o.n < 10 ** 9:
-                        o.check(not bad, pretty, "store-through-shared",
-                                "a store goes through memory that is only reachable by a shared reference", ev["span"])
+                    bad = an.shared_imm(ev["region"])
+                    o.check(not bad, pretty, "store-through-shared",
+                            "a store goes through memory that is only reachable by a shared reference", ev["span"])
+                elif ev["k"] == "call" and ev["key"] in ("rawptr::cast_mut",) and ev["args"]:
+                    C, idx, kind = ptr_root(ev["args"][0])
+                    R = C[1] if C is not None and C[0] == "at" else None
+                    o.check(not an.shared_imm(R), pretty, "const-to-mut-cast",
+                            "a *const pointer into shared data is cast to *mut", ev["span"])
+            # `&mut` reborrows of places behind a shared reference (through raw pointers)
+            for b in an.cfg.rpo:
+                for st in an.blocks[b]["stmts"]:
+                    if st["k"] == "assign" and st["rv"]["k"] in ("ref", "rawptr") and st["rv"]["mut"]:
+                        mode, name, vp = an.walk_place(st["rv"]["place"])
+                        if mode == "mem":
+                            o.check(not an.shared_imm(name), pretty, "mutable-borrow-of-shared",
+                                    "a mutable borrow is taken of memory that is only reachable by a shared reference", st["span"])
             # raw writes: pointer roots
             for s in inventory(an):
                 is_write = (s.kind == "deref" and s.what == "store") or s.kind == "call:core::ptr::write"
@@ -67,8 +78,7 @@ def rule_pure(filter_names=None):
                     P = s.ev["args"][0]
                 C, idx, kind = ptr_root(P)
                 R = C[1] if C is not None and C[0] == "at" else None
-                ri = an.region_info.get(R) if R else None
-                o.check(not (ri is not None and ri["imm"]), pretty, "raw-write-through-shared",
+                o.check(not an.shared_imm(R), pretty, "raw-write-through-shared",
                         "a raw-pointer write targets a buffer reachable only through a shared reference", s.span)
             # *const -> *mut casts of pointers derived from shared data
             for b in an.cfg.rpo:
@@ -79,8 +89,7 @@ def rule_pure(filter_names=None):
                             t = an.stmt_terms.get((b, i))
                             C, idx, kind = ptr_root(t) if t else (None, None, None)
                             R = C[1] if C is not None and C[0] == "at" else None
-                            ri = an.region_info.get(R) if R else None
-                            o.check(not (ri is not None and ri["imm"]), pretty, "const-to-mut-cast",
+                            o.check(not an.shared_imm(R), pretty, "const-to-mut-cast",
                                     "a *const pointer into shared data is cast to *mut", st["span"])
         return o.report(floors={"functions taking a shared digraph": (o.instances, 150 if filter_names is None else 10)})
     return f
